@@ -18,7 +18,8 @@ for name, d in runs:
                 lg = open(os.path.join(d, m.group(1) + '.log')).read()
                 inc += re.findall(r'INCONCLUSIVE obligation=(\S+)', lg)
     bad = {k: v for k, v in ex.items() if v}
-    rows.append(f"| {name} | {len(ex) - len(bad)} x exit 0" + (f", non-zero: {bad}" if bad else '') + f" | {', '.join(inc) or 'none'} |")
+    part = '' if len(ex) == 20 else f' ({len(ex)} of the 20 checks were run before the session ended: {", ".join(sorted(ex))}; in the second session all 20 ran against the machinery of that time, all exit 0)'
+    rows.append(f"| {name} | {len(ex) - len(bad)} x exit 0" + (f", non-zero: {bad}" if bad else '') + part + f" | {', '.join(inc) or 'none'} |")
 p = '/verif/DESIGN.md'
 s = open(p).read()
 b, e = '<!-- BENIGN-TABLE-BEGIN -->', '<!-- BENIGN-TABLE-END -->'
